@@ -182,7 +182,8 @@ def retarget_suite(ctx):
         zname = ctx.rng.choice(sorted({s["zone"] for s in prob["streams"]}))
         a = float(ctx.rng.randrange(30, 280, 5)) + 1.25            # end points that are not rows of the existing tables
         b = a + ctx.rng.choice([-60.0, -35.0, 40.0, 75.0])
-        extra = dict(zone=zname, name="WhatIf", t_supply=a, t_target=b, heat_flow=float(ctx.rng.choice([50, 120, 400])),
+        mean_q = sum(abs(x["heat_flow"]) for x in prob["streams"]) / len(prob["streams"])
+        extra = dict(zone=zname, name="WhatIf", t_supply=a, t_target=b, heat_flow=mean_q * ctx.rng.choice([0.25, 0.5, 2.0]),   # of the problem's own magnitude
                      dt_cont=ctx.rng.choice([0.0, 2.5, 5.0]), htc=1.0)
         st = Stream(name="WhatIf", t_supply=a, t_target=b, heat_flow=extra["heat_flow"], dt_cont=extra["dt_cont"], htc=1.0, is_process_stream=True)
         z = mz.subzones[zname]
@@ -190,9 +191,12 @@ def retarget_suite(ctx):
         (mz.hot_streams if a > b else mz.cold_streams).add(st, zname + ".WhatIf")
         q = dict(prob, streams=prob["streams"] + [extra])
         try:
+            fresh, _ = pc.run_service(q)
+        except Exception:  # noqa: BLE001   (the enlarged problem itself is not analysable: totality is C14's statement)
+            continue
+        try:
             mz2 = get_targets(mz)
             out2 = TargetOutput.model_validate(extract_results(mz2))
-            fresh, _ = pc.run_service(q)
         except Exception as e:  # noqa: BLE001
             ctx.fail("retarget-raises", f"{type(e).__name__}: {e}", suite="retarget", input=dict(problem=prob, added=extra), predicate="get_targets on an analysed tree")
             continue
